@@ -71,12 +71,14 @@ namespace c02
         M_MOVE_CTOR,
         M_CTOR_IL,
         M_DEFAULT_CTOR,
-        M_AT_ABSENT // observer with an exception: its own state-preserving operation (run once per state)
+        M_AT_ABSENT, // observer with an exception: its own state-preserving operation (run once per state)
+        M_INSERT_RVALUE, // insert(value_type(k, v)) — appended: earlier indices keep their meaning
+        M_INDEX_RVALUE_KEY // X[int(k)] = v
     };
     inline const char *mkname(int k)
     {
         static const char *n[] = {"index_write", "index_read", "insert", "emplace", "at_write", "clear", "copy_assign",
-                                  "move_assign", "copy_ctor", "move_ctor", "ctor_initlist", "default_ctor", "at_absent"};
+                                  "move_assign", "copy_ctor", "move_ctor", "ctor_initlist", "default_ctor", "at_absent", "insert_rvalue", "index_write_rvalue_key"};
         return n[k];
     }
 
@@ -139,6 +141,11 @@ namespace c02
                 for (int i = 0; i < (int)lists.size(); i++)
                     ops.push_back({M_CTOR_IL, x, i, 0});
             }
+            for (int x = 0; x < (single ? 1 : 2); x++) // appended after everything else
+                for (int k = 0; k < NK; k++)
+                    for (int v = 0; v < NV; v++)
+                        for (int kind : {M_INSERT_RVALUE, M_INDEX_RVALUE_KEY})
+                            ops.push_back({kind, x, k, v});
             slot->names.resize(ops.size());
             return slot;
         }
@@ -199,6 +206,10 @@ namespace c02
                 return mc::fmt("%s' = map()", X);
             case M_AT_ABSENT:
                 return mc::fmt("%s.at(%d) with the key absent", X, p.a);
+            case M_INSERT_RVALUE:
+                return mc::fmt("%s.insert(value_type(%d,%d))", X, p.a, p.b);
+            case M_INDEX_RVALUE_KEY:
+                return mc::fmt("%s[int(%d)] = %d", X, p.a, p.b);
             }
             return "?";
         }
@@ -247,8 +258,12 @@ namespace c02
             switch (p.kind)
             {
             case M_INDEX_WRITE:
+            case M_INDEX_RVALUE_KEY:
                 op += present ? ".present" : ".absent";
-                X[p.a] = p.b;
+                if (p.kind == M_INDEX_RVALUE_KEY)
+                    X[int(p.a)] = p.b;
+                else
+                    X[p.a] = p.b;
                 rx.index(p.a) = p.b;
                 sx.set(p.a, p.b);
                 if (present)
@@ -267,10 +282,11 @@ namespace c02
                 break;
             }
             case M_INSERT:
+            case M_INSERT_RVALUE:
             {
                 op += present ? ".present" : ".absent";
                 typename Map::value_type val(p.a, p.b);
-                auto it = X.insert(val);
+                auto it = p.kind == M_INSERT_RVALUE ? X.insert(typename Map::value_type(p.a, p.b)) : X.insert(val);
                 rx.insert(p.a, p.b);
                 sx.insert(p.a, p.b);
                 if (it == X.end() || it->first != p.a || it->second != *rx.find(p.a))
@@ -484,7 +500,8 @@ namespace c02
         S_COPY_CTOR,
         S_MOVE_CTOR,
         S_DEFAULT_CTOR,
-        S_COMPARE_CTOR
+        S_COMPARE_CTOR,
+        S_INSERT_RVALUE // insert(int(k)) — appended
     };
     template <class Set, class StdRef, bool HasCompareCtor> struct SetModel : mc::Model
     {
@@ -511,6 +528,9 @@ namespace c02
                 if (HasCompareCtor)
                     ops.push_back({S_COMPARE_CTOR, x, 0});
             }
+            for (int x = 0; x < 2; x++) // appended after everything else
+                for (int k = 0; k < NK; k++)
+                    ops.push_back({S_INSERT_RVALUE, x, k});
         }
         ~SetModel()
         {
@@ -520,7 +540,7 @@ namespace c02
         int nops() override { return (int)ops.size(); }
         static const char *skname(int k)
         {
-            static const char *n[] = {"insert", "clear", "copy_assign", "move_assign", "copy_ctor", "move_ctor", "default_ctor", "compare_ctor"};
+            static const char *n[] = {"insert", "clear", "copy_assign", "move_assign", "copy_ctor", "move_ctor", "default_ctor", "compare_ctor", "insert_rvalue"};
             return n[k];
         }
         string opname(int o) override
@@ -547,12 +567,16 @@ namespace c02
             switch (p.kind)
             {
             case S_INSERT:
+            case S_INSERT_RVALUE:
             {
                 bool present = std::find(rx.begin(), rx.end(), p.a) != rx.end();
                 op += present ? ".present" : ".absent";
                 if (present || (!rx.empty() && p.a < rx.back()))
                     mc::nontrivial();
-                X.insert(p.a);
+                if (p.kind == S_INSERT_RVALUE)
+                    X.insert(int(p.a));
+                else
+                    X.insert(p.a);
                 if (!present)
                 {
                     rx.push_back(p.a);
